@@ -31,10 +31,14 @@ pub enum Profile {
     Mixed,
 }
 
-#[derive(Clone, Debug)]
+#[derive(Clone, Debug, Default)]
 pub struct Knobs {
-    /// Extra hostile / invalid traffic is injected (C04b, C15); None = no injection.
-    pub inject: bool,
+    /// Hostile input is injected on the three ports between the steps (C15).
+    pub hostile: bool,
+    /// Functional probes run at the end (C15): vote, block sync, batch sync, batching.
+    pub probes: bool,
+    /// Maximum number of script steps (0 = default).
+    pub max_steps: usize,
 }
 
 pub struct SoloRun {
@@ -49,6 +53,10 @@ pub struct SoloRun {
     pub steps: Vec<Value>,
     pub stats: BTreeMap<String, u64>,
     pub panics: Vec<sim::PanicRec>,
+    /// (probe name, passed, detail) of the functional probes run at the end (C15).
+    pub probes: Vec<(String, bool, String)>,
+    /// Classes of hostile input that were injected, with whether they decoded to a message.
+    pub hostile: Vec<(String, bool)>,
 }
 
 struct Script<'a, 'b> {
@@ -83,6 +91,8 @@ struct Script<'a, 'b> {
     certified: HashSet<Digest>,
     cert_max: u64,
     anchor: Option<Digest>,
+    probes: Vec<(String, bool, String)>,
+    hostile: Vec<(String, bool)>,
 }
 
 fn genesis_digest() -> Digest {
@@ -799,6 +809,356 @@ impl<'a, 'b> Script<'a, 'b> {
         self.stat("sync-probe");
     }
 
+
+    /// One piece of hostile input on one of the node's three ports.
+    async fn hostile_input(&mut self) {
+        use crate::world::{addr, CONSENSUS_PORT, MEMPOOL_PORT, TX_PORT};
+        use tokio::io::AsyncWriteExt;
+        let sut = self.sut;
+        let p = *self.t.pick(&self.puppets.clone());
+        let from = p as u32 + 1;
+        let kind = self.t.below(14);
+        let port_choice = self.t.below(3);
+        let base = [CONSENSUS_PORT, MEMPOOL_PORT, TX_PORT][port_choice];
+        let port = base + sut as u16;
+        let mut decoded = false;
+        let name: String;
+        match kind {
+            0 | 1 | 2 => {
+                // raw bytes: garbage, lying / zero / oversized length prefixes, truncated frames
+                let mut bytes = Vec::new();
+                let sub = self.t.below(6);
+                match sub {
+                    0 => {
+                        let k = 1 + self.t_len(60);
+                        bytes = self.t.bytes(k);
+                    }
+                    1 => {
+                        bytes.extend(0u32.to_be_bytes());
+                        bytes.extend(0u32.to_be_bytes());
+                    }
+                    2 => {
+                        bytes.extend((9u32 << 20).to_be_bytes()); // above the 8 MiB frame limit
+                        bytes.extend(self.t.bytes(16));
+                    }
+                    3 => {
+                        bytes.extend(1000u32.to_be_bytes()); // announces more than it sends
+                        bytes.extend(self.t.bytes(10));
+                    }
+                    4 => {
+                        bytes.extend(u32::MAX.to_be_bytes());
+                        bytes.extend(self.t.bytes(4));
+                    }
+                    _ => {
+                        // a valid frame followed by half a frame
+                        let m = bincode::serialize(&ConsensusMessage::SyncRequest(sha512_32(b"nothing"), self.w.pk(p))).unwrap();
+                        bytes.extend((m.len() as u32).to_be_bytes());
+                        bytes.extend(&m);
+                        bytes.extend((m.len() as u32).to_be_bytes());
+                        bytes.extend(&m[..m.len() / 2]);
+                    }
+                }
+                simnet::set_current_node(from);
+                let s = network::simnet::TcpStream::connect_raw(addr(port)).await;
+                simnet::set_current_node(0);
+                if let Ok(mut s) = s {
+                    simnet::set_current_node(from);
+                    let _ = s.write_all(&bytes).await;
+                    simnet::set_current_node(0);
+                    if self.t.chance(1, 2) {
+                        tokio::time::sleep(ms(3)).await;
+                    }
+                    drop(s);
+                }
+                name = format!("raw-{}-port{}", sub, port_choice);
+            }
+            3 | 4 | 5 => {
+                // edited valid consensus message (any variant), to the consensus or the mempool port
+                let msgs = crate::props::c15::valid_consensus_messages(self.w, self.t);
+                let i = self.t.below(msgs.len());
+                let mut bytes = bincode::serialize(&msgs[i]).unwrap();
+                let nedits = self.t.below(3);
+                for _ in 0..nedits {
+                    crate::props::c15::edit_bytes(self.t, &mut bytes);
+                }
+                decoded = bincode::deserialize::<ConsensusMessage>(&bytes).is_ok();
+                let dst = if self.t.chance(1, 5) { MEMPOOL_PORT } else { CONSENSUS_PORT } + sut as u16;
+                let _ = self.conns.send(from, dst, bytes).await;
+                name = format!("edited-consensus-msg-{}{}", i, if dst / 100 == 92 { "-to-mempool-port" } else { "" });
+            }
+            6 => {
+                // mempool messages, edited, also to the consensus port
+                let ntx = self.t.below(4);
+                let batch: Vec<Vec<u8>> = (0..ntx).map(|j| vec![j as u8; 1 + j]).collect();
+                let mut bytes = if self.t.chance(1, 2) {
+                    bincode::serialize(&MempoolMessage::Batch(batch)).unwrap()
+                } else {
+                    let ds: Vec<Digest> = (0..ntx).map(|j| sha512_32(&[j as u8])).collect();
+                    bincode::serialize(&MempoolMessage::BatchRequest(ds, self.w.pk(p))).unwrap()
+                };
+                let nedits = self.t.below(3);
+                for _ in 0..nedits {
+                    crate::props::c15::edit_bytes(self.t, &mut bytes);
+                }
+                decoded = bincode::deserialize::<MempoolMessage>(&bytes).is_ok();
+                let dst = if self.t.chance(1, 4) { CONSENSUS_PORT } else { MEMPOOL_PORT } + sut as u16;
+                let _ = self.conns.send(from, dst, bytes).await;
+                name = format!("edited-mempool-msg{}", if dst / 100 == 90 { "-to-consensus-port" } else { "" });
+            }
+            7 => {
+                // well-formed, correctly signed, absurd fields (single Byzantine member: no certificates)
+                let r = *self.t.pick(&[0u64, u64::MAX, u64::MAX - 1, 1 << 63]);
+                let m = match self.t.below(4) {
+                    0 => ConsensusMessage::Vote(self.w.vote_for(p, sha512_32(b"absurd"), r)),
+                    1 => ConsensusMessage::Timeout(self.w.timeout(p, r, QC::genesis())),
+                    2 => {
+                        let author = if self.w.leader(r) != sut { self.w.leader(r) } else { p };
+                        ConsensusMessage::Propose(self.w.block(author, r, QC::genesis(), None, Vec::new()))
+                    }
+                    _ => {
+                        let author = if self.w.leader(r) != sut { self.w.leader(r) } else { p };
+                        let payload: Vec<Digest> = (0..self.t.below(2000)).map(|i| sha512_32(&(i as u32).to_le_bytes())).collect();
+                        ConsensusMessage::Propose(self.w.block(author, r, QC::genesis(), None, payload))
+                    }
+                };
+                decoded = true;
+                self.send_to_sut(p, &m).await;
+                name = format!("absurd-round-{}", if r == 0 { "0" } else { "huge" });
+            }
+            8 => {
+                // keys of wrong length inside otherwise well-formed messages (hand-encoded bincode)
+                let klen = *self.t.pick(&[0usize, 1, 3, 31, 33, 64]);
+                let key_text = base64::encode(self.t.bytes(klen));
+                let mut raw = Vec::new();
+                match self.t.below(2) {
+                    0 => {
+                        raw.extend(1u32.to_le_bytes()); // Vote
+                        raw.extend([7u8; 32]);
+                        raw.extend(self.cur.to_le_bytes());
+                        raw.extend((key_text.len() as u64).to_le_bytes());
+                        raw.extend(key_text.as_bytes());
+                        raw.extend([0u8; 64]);
+                    }
+                    _ => {
+                        raw.extend(4u32.to_le_bytes()); // SyncRequest
+                        raw.extend([7u8; 32]);
+                        raw.extend((key_text.len() as u64).to_le_bytes());
+                        raw.extend(key_text.as_bytes());
+                    }
+                }
+                let _ = self.conns.send(from, CONSENSUS_PORT + sut as u16, raw).await;
+                name = format!("key-of-{}-bytes", klen);
+            }
+            9 => {
+                // SyncRequest for the digest of a stored batch (shared store)
+                let d = match self.batches.keys().next().cloned() {
+                    Some(d) => d,
+                    None => {
+                        let bytes = bincode::serialize(&MempoolMessage::Batch(vec![vec![9, 9, 9]])).unwrap();
+                        let d = sha512_32(&bytes);
+                        self.batches.insert(d.clone(), bytes.clone());
+                        let _ = self.conns.mempool(p, sut, bytes).await;
+                        tokio::time::sleep(ms(4)).await;
+                        d
+                    }
+                };
+                // make sure the batch is in the store
+                let bytes = self.batches[&d].clone();
+                let _ = self.conns.mempool(p, sut, bytes).await;
+                tokio::time::sleep(ms(4)).await;
+                decoded = true;
+                self.send_to_sut(p, &ConsensusMessage::SyncRequest(d, self.w.pk(p))).await;
+                name = "sync-request-for-batch-digest".into();
+            }
+            10 => {
+                // BatchRequest for a block digest; unknown digests; many digests
+                let mut ds: Vec<Digest> = self.delivered.iter().take(3).cloned().collect();
+                ds.push(sha512_32(b"unknown"));
+                let origin = if self.t.chance(1, 4) { PublicKey::default() } else { self.w.pk(p) };
+                let bytes = bincode::serialize(&MempoolMessage::BatchRequest(ds, origin)).unwrap();
+                decoded = true;
+                let _ = self.conns.mempool(p, sut, bytes).await;
+                name = "batch-request-for-block-digest".into();
+            }
+            11 => {
+                // a proposal whose payload digests are block digests / its own parent
+                self.absorb();
+                let round = self.cur;
+                if !self.leader_is_sut(round) && !self.delivered.is_empty() {
+                    let parent = self.sound_tip();
+                    if self.round_of(&parent) + 1 == round {
+                        // digests of blocks the node certainly stored: the ones it voted for
+                        let me = self.w.pk(sut);
+                        let payload: Vec<Digest> = {
+                            let ib = self.inbox.lock().unwrap();
+                            ib.votes.iter().filter(|(_, v)| v.author == me).rev().take(2).map(|(_, v)| v.hash.clone()).collect()
+                        };
+                        let qc = self.qc_of(&parent);
+                        let b = self.w.block(self.w.leader(round), round, qc, None, payload);
+                        decoded = true;
+                        self.deliver_block(&b, None).await;
+                        self.tip = Some(b.digest());
+                    }
+                }
+                name = "payload-digests-are-block-digests".into();
+            }
+            12 => {
+                // transactions: empty, tiny, large
+                let len = *self.t.pick(&[0usize, 0, 1, 8, 9, 200, 5_000, 100_000]);
+                let first = *self.t.pick(&[0u8, 0, 1, 255]);
+                let mut tx = vec![first; len];
+                if len > 9 {
+                    tx[1..9].copy_from_slice(&7u64.to_be_bytes());
+                }
+                decoded = true;
+                let _ = self.conns.tx(100 + from, sut, tx).await;
+                name = format!("tx-len-{}", len);
+            }
+            _ => {
+                // sync request from an unknown authority, for unknown digests
+                let m = ConsensusMessage::SyncRequest(sha512_32(&self.t.bytes(4)), PublicKey::default());
+                decoded = true;
+                self.send_to_sut(p, &m).await;
+                name = "sync-request-unknown-origin".into();
+            }
+        }
+        self.stat("hostile-input");
+        self.note(json!({"step": "hostile", "kind": name}));
+        self.hostile.push((name, decoded));
+    }
+
+    fn t_len(&mut self, max: usize) -> usize {
+        self.t.below(max)
+    }
+
+    fn record_probe(&mut self, name: &str, ok: bool, detail: String) {
+        self.probes.push((name.to_string(), ok, detail));
+    }
+
+    /// Functional probes: after everything that happened, does each service of the node still work?
+    async fn run_probes(&mut self) {
+        let sut = self.sut;
+        let sut_pk = self.w.pk(sut);
+        // (4) batching: a client transaction must come out in a batch broadcast to the peers
+        let marker: Vec<u8> = vec![1, 0xC1, 0x15, 0xAA, 0x55, 0xC1, 0x15, 0xAA, 0x55, 0x77];
+        let _ = self.conns.tx(99, sut, marker.clone()).await;
+        tokio::time::sleep(ms(self.params.max_batch_delay + 10)).await;
+        let found = {
+            let ib = self.inbox.lock().unwrap();
+            ib.batches.iter().any(|(bytes, _)| match bincode::deserialize::<MempoolMessage>(bytes) {
+                Ok(MempoolMessage::Batch(txs)) => txs.iter().any(|t| *t == marker),
+                _ => false,
+            })
+        };
+        self.record_probe("client-transaction-batched", found, "a transaction sent to the transaction port did not appear in any batch sent to the peers".into());
+
+        // (3) batch sync: a stored batch is served on request
+        let bytes = bincode::serialize(&MempoolMessage::Batch(vec![vec![0x42; 12], vec![1, 2, 3]])).unwrap();
+        let d = sha512_32(&bytes);
+        let p = self.puppets[0];
+        let _ = self.conns.mempool(p, sut, bytes.clone()).await;
+        tokio::time::sleep(ms(5)).await;
+        let req = bincode::serialize(&MempoolMessage::BatchRequest(vec![d], self.w.pk(p))).unwrap();
+        let _ = self.conns.mempool(p, sut, req).await;
+        tokio::time::sleep(ms(8)).await;
+        let served = {
+            let ib = self.inbox.lock().unwrap();
+            ib.batches.iter().any(|(b, to)| *to == p && *b == bytes)
+        };
+        self.record_probe("batch-request-answered", served, "BatchRequest for a stored batch was not answered with the batch".into());
+
+        // (1) consensus still processes proposals. First heal what the script itself withheld: every
+        // batch it ever referenced and every block it ever crafted on the delivered chain are
+        // (re)sent, oldest first, so that nothing the script did on purpose keeps the chain stuck.
+        let all_batches: Vec<Vec<u8>> = self.batches.values().cloned().collect();
+        for b in all_batches {
+            let _ = self.conns.mempool(p, sut, b).await;
+        }
+        tokio::time::sleep(ms(5)).await;
+        let mut known: Vec<Block> = self.blocks.values().filter(|b| b.author != sut_pk && (self.certified.contains(&b.digest()) || self.delivered.contains(&b.digest()))).cloned().collect();
+        known.sort_by_key(|b| b.round);
+        for b in known {
+            self.send_to_sut(p, &ConsensusMessage::Propose(b)).await;
+            tokio::time::sleep(ms(2)).await;
+        }
+        self.settle().await;
+        self.serve_requests(true).await;
+        self.settle().await;
+        // then resynchronise on the node's round and propose
+        let before_votes = self.sut_vote_count();
+        let mut voted = false;
+        let mut attempts = Vec::new();
+        for attempt in 0..4 {
+            tokio::time::sleep(ms(self.params.timeout_delay + 20)).await;
+            self.absorb();
+            // the node's own timeout tells its round
+            let r = {
+                let ib = self.inbox.lock().unwrap();
+                ib.timeouts.iter().filter(|(_, t)| t.author == sut_pk).map(|(_, t)| t.round).max().unwrap_or(self.cur)
+            };
+            self.cur = self.cur.max(r);
+            let round = self.cur;
+            self.timeout_round(round, true).await;
+            self.settle().await;
+            for _ in 0..3 {
+                self.advance(false).await;
+                self.settle().await;
+                self.serve_requests(true).await;
+                self.settle().await;
+            }
+            attempts.push(round);
+            if self.sut_vote_count() > before_votes {
+                voted = true;
+                break;
+            }
+            let _ = attempt;
+        }
+        self.record_probe("valid-proposal-voted", voted, format!("no vote of the node for any of the valid proposals offered after resynchronising (rounds tried from {:?})", attempts));
+
+        // (2) block sync: a stored block is served on request
+        let target = self.delivered.iter().rev().find(|d| self.blocks.get(*d).map_or(false, |b| b.author != sut_pk)).cloned();
+        if let Some(d) = target {
+            // only meaningful if the node stored it: ask for the block it voted for / processed most recently
+            let p = self.puppets[0];
+            let before = { self.inbox.lock().unwrap().proposals.len() };
+            self.send_to_sut(p, &ConsensusMessage::SyncRequest(d.clone(), self.w.pk(p))).await;
+            tokio::time::sleep(ms(8)).await;
+            let answered = {
+                let ib = self.inbox.lock().unwrap();
+                ib.proposals.iter().skip(before).any(|(to, b)| *to == p as u32 + 1 && b.digest() == d)
+            };
+            // the probe only counts when the node voted (then the block is certainly stored)
+            if voted {
+                let voted_digest = self.last_voted_digest();
+                if let Some(vd) = voted_digest {
+                    let before = { self.inbox.lock().unwrap().proposals.len() };
+                    self.send_to_sut(p, &ConsensusMessage::SyncRequest(vd.clone(), self.w.pk(p))).await;
+                    tokio::time::sleep(ms(8)).await;
+                    let ok = {
+                        let ib = self.inbox.lock().unwrap();
+                        ib.proposals.iter().skip(before).any(|(to, b)| *to == p as u32 + 1 && b.digest() == vd)
+                    };
+                    self.record_probe("sync-request-answered", ok, "SyncRequest for the block the node just voted for was not answered with it".into());
+                }
+            }
+            let _ = answered;
+        }
+    }
+
+    fn sut_vote_count(&self) -> usize {
+        let me = self.w.pk(self.sut);
+        let ib = self.inbox.lock().unwrap();
+        let wire = ib.votes.iter().filter(|(_, v)| v.author == me).count();
+        let embedded = ib.proposals.iter().filter(|(_, b)| b.author == me && b.qc.votes.iter().any(|(k, _)| *k == me)).map(|(_, b)| b.qc.round).collect::<BTreeSet<_>>().len();
+        wire + embedded
+    }
+
+    fn last_voted_digest(&self) -> Option<Digest> {
+        let me = self.w.pk(self.sut);
+        let ib = self.inbox.lock().unwrap();
+        ib.votes.iter().filter(|(_, v)| v.author == me).last().map(|(_, v)| v.hash.clone())
+    }
+
     async fn long_sleep(&mut self) {
         let d = self.t.range(self.params.timeout_delay + 5, self.params.timeout_delay * 3);
         self.note(json!({"step": "sleep", "ms": d}));
@@ -814,7 +1174,12 @@ pub fn solo_cfg(case: &Case) -> (usize, Vec<u32>, u64, usize, u64) {
     let salt = cfg_range(&case.cfg, 2, 0, 6);
     let stakes = crate::world::stakes_profile(n, profile, salt);
     let key_seed = cfg_range(&case.cfg, 3, 0, 5);
-    let sut = cfg_range(&case.cfg, 4, 0, n as u64 - 1) as usize;
+    // the puppets (everyone but the real node) must hold a quorum on their own
+    let total: u64 = stakes.iter().map(|s| *s as u64).sum();
+    let q = 2 * total / 3 + 1;
+    let eligible: Vec<usize> = (0..n).filter(|i| total - stakes[*i] as u64 >= q).collect();
+    let (stakes, eligible) = if eligible.is_empty() { (vec![1u32; n], (0..n).collect::<Vec<_>>()) } else { (stakes, eligible) };
+    let sut = eligible[cfg_range(&case.cfg, 4, 0, eligible.len() as u64 - 1) as usize];
     let rt_seed = case.cfg.get(5).copied().unwrap_or(0) as u64;
     (n, stakes, key_seed, sut, rt_seed)
 }
@@ -830,7 +1195,7 @@ pub fn run_solo(case: &Case, profile: Profile, knobs: &Knobs) -> SoloRun {
     let knobs = knobs.clone();
     let params2 = params.clone();
     let sut_id = sut as u32 + 1;
-    let (blocks, batches, steps, stats) = sim::run_sim(rt_seed ^ 0x5010, || async {
+    let (blocks, batches, steps, stats, probes, hostile) = sim::run_sim(rt_seed ^ 0x5010, || async {
         let w = &w;
         simnet::install(Box::new(RigPolicy {
             on_connect: Box::new(|_, _| ConnectDecision::Accept(us(0))),
@@ -868,6 +1233,8 @@ pub fn run_solo(case: &Case, profile: Profile, knobs: &Knobs) -> SoloRun {
             certified: HashSet::new(),
             cert_max: 0,
             anchor: None,
+            probes: Vec::new(),
+            hostile: Vec::new(),
         };
         tokio::time::sleep(ms(3)).await;
         s.absorb();
@@ -880,7 +1247,7 @@ pub fn run_solo(case: &Case, profile: Profile, knobs: &Knobs) -> SoloRun {
             Profile::Certs => [12, 1, 1, 0, 5, 0, 3, 2, 0, 1, 0],
             Profile::Mixed => [10, 2, 3, 2, 3, 1, 2, 2, 1, 2, 2],
         };
-        let max_steps = 60;
+        let max_steps = if knobs.max_steps > 0 { knobs.max_steps } else { 60 };
         let mut step = 0;
         while step < max_steps && !(s.t.exhausted() && step >= 3) {
             step += 1;
@@ -901,8 +1268,12 @@ pub fn run_solo(case: &Case, profile: Profile, knobs: &Knobs) -> SoloRun {
                 _ => s.advance(true).await,
             }
             s.pause().await;
-            if knobs.inject {
-                // reserved for hostile-traffic profiles (hooks in from hostile.rs)
+            if knobs.hostile && s.t.chance(2, 3) {
+                let k = 1 + s.t.below(3);
+                for _ in 0..k {
+                    s.hostile_input().await;
+                }
+                s.pause().await;
             }
         }
         // wind down: serve what is outstanding, let everything land
@@ -912,7 +1283,10 @@ pub fn run_solo(case: &Case, profile: Profile, knobs: &Knobs) -> SoloRun {
         s.serve_requests(true).await;
         tokio::time::sleep(ms(30)).await;
         s.absorb();
-        (s.blocks, s.batches, s.steps, s.stats)
+        if knobs.probes {
+            s.run_probes().await;
+        }
+        (s.blocks, s.batches, s.steps, s.stats, s.probes, s.hostile)
     });
     let log = sim::take_log();
     let hist = rig::node_history(&log, sut_id);
@@ -938,6 +1312,8 @@ pub fn run_solo(case: &Case, profile: Profile, knobs: &Knobs) -> SoloRun {
         steps,
         stats,
         panics,
+        probes,
+        hostile,
     }
 }
 
